@@ -112,8 +112,11 @@ def run(ctx):
         for n in walk_no_nested(f.node):
             if isinstance(n, ast.If) and unparse(n.test) == "partial":
                 for s in n.body:
-                    if isinstance(s, (ast.Assign, ast.Return)) and isinstance(s.value, ast.Call):
-                        return m.resolve_call(f, s.value).key
+                    v_ = getattr(s, "value", None)
+                    while isinstance(v_, ast.Subscript):
+                        v_ = v_.value  # qr(x)[0]
+                    if isinstance(s, (ast.Assign, ast.Return)) and isinstance(v_, ast.Call):
+                        return m.resolve_call(f, v_).key
             if isinstance(n, ast.IfExp) and unparse(n.test) == "partial" and isinstance(n.body, ast.Call):
                 return m.resolve_call(f, n.body).key
         return None
